@@ -472,6 +472,26 @@ fn exec<'a>(
                     continue;
                 }
                 let drain = matches!(ev, Ev::Drain { .. });
+                if hs[handle].finished && !drain {
+                    // polled again after the end: whatever the slice search of the same bytes
+                    // answers to one more next() after its None, the byte-iterator search must
+                    // answer too (both are None forever on this tree)
+                    let hspec = &sc.handles[handle];
+                    let r = hs[handle].it.as_mut().unwrap().next();
+                    let fin: Vec<u8> = {
+                        let w = world.borrow();
+                        let s = &w.streams[hspec.stream];
+                        s.content[..s.delivered].to_vec()
+                    };
+                    let mut sl = pma.open_slice(hspec.method, pma::Hay::plain(&fin));
+                    while sl.next().is_some() {}
+                    let want = sl.next();
+                    world.borrow_mut().log(10, (handle, r));
+                    if r != want {
+                        viol!("same-matches", "handle {handle} ({:?}): next() after the end returned {r:?}, the slice search returns {want:?} there", hspec.method);
+                    }
+                    continue;
+                }
                 loop {
                     if hs[handle].finished {
                         break;
